@@ -84,7 +84,10 @@ def split_byte_interval(
 
     # Group overlapping blocks so they can be processed as a unit.
     groups: List[BlockGroup] = []
-    for block in sorted(interval.blocks, key=lambda b: b.offset):
+    # Sorting by size as well makes the grouping independent of the iteration
+    # order of the block set: a zero-sized block always comes before a block
+    # that starts at the same offset and ends up in a group of its own.
+    for block in sorted(interval.blocks, key=lambda b: (b.offset, b.size)):
         block_end = block.offset + block.size
         if groups == [] or groups[-1].end <= block.offset:
             groups.append(BlockGroup(block.offset, block_end, [block]))
